@@ -8,6 +8,17 @@ from .. import common, tlc, programs
 from ..framework import Check, pmap, MachineryError
 
 
+POS_TEXT = {
+    1: "r{r} = {n}(x{r})",
+    2: "associate (q{r} => {n}(x{r}))\n{ind}end associate",
+    3: "if ({n}(x{r}) > 0) y{r} = 1",
+    4: "call ext{r}({n}(x{r}), 2)",
+    5: "a{r}(int({n}(x{r}))) = 1",
+    6: "print *, 'v', {n}(x{r})",
+    7: "do i{r} = 1, int({n}(x{r}))\n{ind}end do",
+}
+
+
 def render(b):
     sc, decls, refs = b["sc"], b["decls"], b["refs"]
     n = len(sc)
@@ -16,7 +27,11 @@ def render(b):
         kids[s["par"]].append(i)
     name = {}
     for i, s in enumerate(sc, 1):
-        name[i] = {"mod": "m%d", "prog": "p%d", "sub": "s%d", "csub": "c%d", "blk": "b%d"}[s["k"]] % i
+        name[i] = {"mod": "m%d", "prog": "p%d", "sub": "s%d", "csub": "c%d", "blk": "b%d", "ibody": "c%d"}[s["k"]] % i
+    for i, s in enumerate(sc, 1):
+        if s.get("tw"):
+            name[i] = name[s["tw"]]          # a separate module procedure carries the name of its interface body
+    twinned = {s["tw"] for s in sc if s.get("tw")}
     lines = []
 
     def spec_part(i, ind):
@@ -35,11 +50,19 @@ def render(b):
             if d["s"] == i and d["h"] == "decl":
                 lines.append(ind + "real :: %s" % d["n"])
         lines.append(ind + "integer :: k%d" % i)
+        for c in kids[i]:
+            if sc[c - 1]["k"] == "ibody":
+                pre = "module " if c in twinned else ""
+                lines.append(ind + "interface")
+                lines.append(ind + "  %ssubroutine %s" % (pre, name[c]))
+                spec_part(c, ind + "    ")
+                lines.append(ind + "  end subroutine %s" % name[c])
+                lines.append(ind + "end interface")
 
     def exec_part(i, ind):
         for r, ref in enumerate(refs, 1):
             if ref["s"] == i:
-                lines.append(ind + "r%d = %s(x%d)" % (r, ref["n"], r))
+                lines.append(ind + POS_TEXT[ref.get("p", 1)].format(r=r, n=ref["n"], ind=ind))
         for c in kids[i]:
             if sc[c - 1]["k"] == "blk":
                 lines.append(ind + "block")
@@ -50,7 +73,8 @@ def render(b):
     def unit(i, ind):
         k = sc[i - 1]["k"]
         word = {"mod": "module", "prog": "program", "sub": "subroutine", "csub": "subroutine"}[k]
-        lines.append(ind + "%s %s" % (word, name[i]))
+        pre = "module " if sc[i - 1].get("tw") else ""
+        lines.append(ind + "%s%s %s" % (pre, word, name[i]))
         spec_part(i, ind + "  ")
         if k != "mod":
             exec_part(i, ind + "  ")
@@ -81,11 +105,14 @@ def work(case):
         r["tables"] = fp.tables()
         r["scope"] = fp.scope()
         kinds = {}
+        import re
+        pat = re.compile(r"[A-Za-z]+\(x(\d+)\)\Z")
         for n in walk(t):
-            if type(n).__name__ == "Assignment_Stmt":
-                lhs = str(n.items[0])
-                if lhs.startswith("r") and lhs[1:].isdigit():
-                    kinds[int(lhs[1:])] = type(n.items[2]).__name__
+            if type(n).__name__.endswith("_List"):
+                continue
+            m = pat.match(str(n))
+            if m:
+                kinds.setdefault(int(m.group(1)), type(n).__name__)
         r["kinds"] = kinds
     return r
 
@@ -106,12 +133,12 @@ def run(prop, tier=None, replay=None):
         behs = [json.load(open(replay))["replay"]["beh"]]
     else:
         behs = []
-        cfg = "Scopes_quick.cfg" if tier == "quick" else "Scopes_thorough.cfg"
-        r = tlc.run("MCScopes.tla", cfg, timeout=6000)
-        if not r.ok():
-            raise MachineryError("TLC failed on %s: %s %s" % (cfg, r.invariant_violated, r.error))
-        chk.add_tlc(r)
-        behs.extend(r.beh)
+        for cfg in (("Scopes_quick.cfg" if tier == "quick" else "Scopes_thorough.cfg"), "Scopes_pos.cfg"):
+            r = tlc.run("MCScopes.tla", cfg, timeout=20000)
+            if not r.ok():
+                raise MachineryError("TLC failed on %s: %s %s" % (cfg, r.invariant_violated, r.error))
+            chk.add_tlc(r)
+            behs.extend(r.beh)
         r = tlc.run("MCScopes.tla", "Scopes_sim.cfg", workers=8, simulate=dict(num=40 if tier == "quick" else 2500, depth=40), seed=chk.seed + 5, timeout=6000)
         if not r.ok():
             raise MachineryError("TLC failed on Scopes_sim.cfg: %s %s" % (r.invariant_violated, r.error))
@@ -150,7 +177,7 @@ def run(prop, tier=None, replay=None):
             is_intr = kind == "Intrinsic_Function_Reference"
             if is_intr != b["intrinsic"][ri - 1]:
                 hows = sorted({d["h"] for d in b["decls"] if d["n"] == ref["n"]})
-                chk.violation({"clause": "intrinsic-resolution", "expected_intrinsic": b["intrinsic"][ri - 1], "hows": ",".join(hows)},
+                chk.violation({"clause": "intrinsic-resolution", "expected_intrinsic": b["intrinsic"][ri - 1], "hows": ",".join(hows), "position": ref.get("p", 1)},
                               "C16: reference r%d = %s(..) is %s but the specification says intrinsic=%s:\n%s" % (ri, ref["n"], kind, b["intrinsic"][ri - 1], c["src"]),
                               {"beh": b})
     for c in cases[:: max(1, len(cases) // 3)][:3]:
